@@ -285,9 +285,14 @@ func modeCancel1(a args) {
 				// mark the beginning of every scheduling pass in the trace: a condition evaluated in a pass that
 				// BEGAN after Cancel had returned is a command started after cancellation completed
 				sch.VerifSetPause(4 * time.Millisecond)
-				scheduler.VerifSetHandler(func(point string, _ ...interface{}) {
-					if point == "sched.pass" {
-						appendTrace(trace, "PASS")
+				inner := g
+				scheduler.VerifSetHandler(func(point string, hargs ...interface{}) {
+					// only passes of the loop that works on the pipeline with the conditions count (when that
+					// pipeline is included by an outer one, the outer loop makes passes of its own)
+					if point == "sched.pass" && len(hargs) > 1 {
+						if hg, ok := hargs[1].(*scheduler.ExecutionGraph); ok && hg == inner {
+							appendTrace(trace, "PASS")
+						}
 					}
 				})
 			}
